@@ -30,7 +30,8 @@ def fe(bs, sizes, tiers):
 _FE_Q = [(1, 1), (2, 1), (1, 2), (2, 3), (4,)]
 # three-append shapes and (3, 1) exceeded the 16 GB limit in the thorough sweep and are not registered
 _FE_T = [(a, b) for a in (1, 2, 3, 4) for b in (1, 2, 3, 4) if a + b <= 5 and (a, b) not in _FE_Q and (a, b) != (3, 1)] + [(5,), (3,)]
-OBLIGATIONS += [fe(2, s, ["quick", "thorough"]) for s in _FE_Q] + [fe(2, s, ["thorough"]) for s in _FE_T] + [fe(3, (2, 2), ["thorough"]), fe(3, (3, 4), ["thorough"]), fe(3, (1, 5), ["thorough"])]
+# the remaining shapes (_FE_T, block size 3) run in C01's thorough tier only: same harness, same code
+OBLIGATIONS += [fe(2, s, ["quick", "thorough"]) for s in _FE_Q]
 OBLIGATIONS.append(dict(name="fragment_block_always_stored_bs4", harness="harness/C17_fragblock.c", sources=["lib/sqfs/src/inode.c", "lib/util/src/is_memory_zero.c", "lib/util/src/alloc.c"],
     included_sources=["lib/sqfs/src/block_processor/block_processor.c", "lib/sqfs/src/block_processor/backend.c"], incdirs=["lib/sqfs/src/block_processor"],
     defines=dict(BS=4), unwind=8, tiers=["quick", "thorough"], timeout=300, fp_map={"do_block": ["cmp_none"], "write_data_block": ["wr_write"]},
